@@ -7,7 +7,7 @@ print(parse(p)) == p, parse(p) == parse(print(parse(p))), and trace(p) == trace(
 import json
 import re
 
-from .. import build, core, diffrun, gen_core, gen_opt, gen_shape, mutate, runner
+from .. import build, core, diffrun, gen_core, gen_opt, gen_priv, gen_shape, mutate, runner
 from ..core import norm_hash
 from ..rng import Rng
 
@@ -107,11 +107,14 @@ def run(tier, seed):
         else:
             gens.append(gen_shape.generate(seed, i))
     snippets = mutate.harvest_repo_snippets()
+    priv = [gen_priv.generate(seed, i) for i in range(n_gen // 3)]
+    for g in priv:
+        texts.append(("generated-priv", g.encode("utf8")))
     for k, g in enumerate(gens):
         texts.append(("generated" if k % 10 < 9 else "generated-shape", g.encode("utf8")))
     for s in snippets:
         texts.append(("repo-snippet", s.encode("utf8", "replace")))
-    pool = gens + snippets
+    pool = gens + snippets + priv
     for i in range(n_tok):
         texts.append(("token-mutant", mutate.token_mutant(rng, pool[rng.below(len(pool))]).encode("utf8", "replace")))
     for i in range(n_byte):
